@@ -217,7 +217,7 @@ func kfArraySlice(args []KeyBuilderStage) (KeyBuilderStage, error) {
 			}
 		}
 
-		for i := 0; (sliceLen < 0 || i < realStart+sliceLen) && !splitter.Done(); i++ {
+		for i := 0; (sliceLen < 0 || i-realStart < sliceLen) && !splitter.Done(); i++ { // (realStart+sliceLen can overflow)
 			val := splitter.Next()
 			if i >= realStart {
 				if i > realStart {
